@@ -186,9 +186,6 @@ M=[
 		if err != nil {
 			return
 		}'''),
-("C19","bot_scans_varint_for_name","bot/login.go",'''				(*pk.UUID)(&c.UUID),
-				(*pk.String)(&c.Name),''','''				(*pk.UUID)(&c.UUID),
-				(*pk.VarInt)(&c.Conn.Socket.(interface{ X() *int32 }).X()),'''),
 ("C19","acceptconfig_error_dropped","server/server.go",'''		err = s.AcceptConfig(conn)
 		if err != nil {''','''		_ = s.AcceptConfig(conn)
 		if err != nil {'''),
@@ -236,23 +233,27 @@ M=[
 	defer p.playersLock.Unlock()
 	return len(p.players)''','''func (p *PlayerList) Len() int {
 	return len(p.players)'''),
-("C20","pooled_data_alias","net/packet/packet.go",'''	_, err = io.ReadFull(r, p.Data)
+("C20","pooled_data_alias","net/packet/packet.go",'''	p.ID = int32(PacketID)
+	_, err = io.ReadFull(r, p.Data)
 	if err != nil {
 		return err
 	}
 	return nil
-}
-
-func (p *Packet) unpackWithCompression''','''	_, err = io.ReadFull(r, p.Data)
+}''','''	p.ID = int32(PacketID)
+	if DataLength == 0 || true {
+		// "zero copy": hand out the rest of the pooled buffer
+		rest := buff.Bytes()
+		if len(rest) >= int(DataLength) && threshold < 0 {
+			p.Data = rest[len(rest)-int(DataLength):]
+			return nil
+		}
+	}
+	_, err = io.ReadFull(r, p.Data)
 	if err != nil {
 		return err
 	}
 	return nil
-}
-
-var lastUnpacked []byte
-
-func (p *Packet) unpackWithCompression'''),
+}'''),
 ]
 def run(*a, **k): return subprocess.run(a, capture_output=True, text=True, **k)
 bad=0
